@@ -78,6 +78,16 @@ func c10Formats() []*recFormat {
 			OK:   []string{`{"id": "a", "qty": 1, "tags": ["x", "y"]}`, `{"id": "b", "qty": 2, "tags": [], "ts": "2020-01-02", "code": "k1"}`, `{"id": "c", "qty": 3}`, `{"id": "d", "qty": 4, "tags": ["é"], "code": "k2"}`},
 			Fail: map[string][]string{"cast": {`{"id": "e", "qty": "bad"}`, `{"id": "e2", "qty": 1.5}`}, "func": {`{"id": "f", "qty": 6, "ts": "garbage"}`}, "js": {`{"id": "g", "qty": 7, "code": "BAD-secret"}`}},
 			Wrap: func(r []string) string { return "[" + strings.Join(r, ",\n ") + "]" }},
+		// an optional header..footer declaration in front of the target whose header matches every line and whose footer
+		// never comes: each input is looked ahead to its end (all lines buffered and matched) before the target gets them
+		{Name: "csv2-lookahead", Schema: `{"parser_settings": {"version": "omni.2.1", "file_format_type": "csv2"},
+ "file_declaration": {"delimiter": ",", "records": [
+   {"name": "banner", "header": "^[CD],", "footer": "^END", "min": 0, "max": 1, "columns": [{"name": "b", "index": 2}]},
+   {"name": "txn", "is_target": true, "columns": [{"name": "credit", "index": 2, "line_pattern": "^C"}, {"name": "debit", "index": 2, "line_pattern": "^D"}, {"name": "qty", "index": 3}]}]},
+ "transform_declarations": {"FINAL_OUTPUT": {"object": {"credit": {"xpath": "credit"}, "debit": {"xpath": "debit"}, "qty": {"xpath": "qty", "type": "int"}}}}}`,
+			OK:   []string{"C,100,1\n", "D,200,2\n", "C,5,3\n", "D,7,4\n", "C,\"9,9\",5\n"},
+			Fail: map[string][]string{"cast": {"C,1,bad\n", "D,2,x\n"}},
+			Wrap: join("")},
 		// blocks: a plain (non-target, non-group) parent record with several child record types, the target among them; the
 		// parent repeats, so whatever a finished parent instance leaves behind meets the next one
 		{Name: "csv2-nested", Schema: `{"parser_settings": {"version": "omni.2.1", "file_format_type": "csv2"},
@@ -215,6 +225,9 @@ func c10Drive(args []string) int {
 		}
 	}
 	defer debug.SetGCPercent(debug.SetGCPercent(-1))
+	// (not without bound: with the collector off the thorough tier's thousands of rounds would grow the heap until the
+	// kernel kills the process; a soft limit lets it run only when the heap gets there)
+	defer debug.SetMemoryLimit(debug.SetMemoryLimit(3 << 30))
 	for _, f := range formats {
 		emit(M{"kind": "progress", "format": f.Name}) // names the format should the runtime kill the process (vlib.RepoCrash)
 		sch, err, p := newSchema([]byte(f.Schema))
